@@ -13,6 +13,9 @@ mod k_sparse;
 mod k_poly;
 mod k_newton;
 mod k_mesh;
+mod k_iter;
+mod k_roots;
+mod k_cfun;
 mod fnast;
 
 use std::io::{BufRead, Write};
@@ -53,6 +56,10 @@ fn dispatch(elt: &str, kind: &str, a: &mut Args, out: &mut Out) {
         "mesh" => by_elt!(k_mesh),
         // Complex<T> kinds carry their own element handling (elt = "crat" | "cplx")
         "cx" => k_complex::run_cx(elt, kind, a, out),
+        // f64-only families
+        "it" => k_iter::run(kind, a, out),        // iterative sparse solvers (C08, C09)
+        "roots" => k_roots::run(elt, kind, a, out),   // Polynomial::roots (C10), elt = f64 | cplx
+        "cf" => k_cfun::run(kind, a, out),        // Complex<f64> elementary/trig/hyperbolic functions (C14)
         _ => panic!("harness: unknown family/elt {} {}", kind, elt),
     }
 }
